@@ -1,6 +1,6 @@
 (* Extraction of the executable model + monitor for the correspondence driver.
    Only ExtrOcamlBasic: positive/N/Z/nat stay inductive types. *)
 From Coq Require Import Extraction ExtrOcamlBasic.
-From Verif Require Import c14.SpecConc.
+From Verif Require Import c14.SpecConc2.
 Extraction Language OCaml.
 Extraction "extract/c14_model.ml" conform_case monitor_case.
